@@ -3,7 +3,7 @@ schedule point (VERIF_PARK), so that `stop`/`isready` arrive at a known point of
 import os, subprocess, threading, time
 
 
-def session(exe, fen, park, go='go infinite', stop_delay=0.0, wait=6.0, extra_env=None, isready_during=True, stop_on_park=False, kill_at_end=False):
+def session(exe, fen, park, go='go infinite', stop_delay=0.0, wait=6.0, extra_env=None, isready_during=True, stop_on_park=False, kill_at_end=False, stop_on_info=0):
     """returns dict: bestmoves (list of (t, line)), readyok_t, stop_t, parked, stderr, lines"""
     env = dict(os.environ)
     env['ASAN_OPTIONS'] = 'detect_leaks=0'
@@ -34,7 +34,16 @@ def session(exe, fen, park, go='go infinite', stop_delay=0.0, wait=6.0, extra_en
         except Exception as e:
             dead.append(str(e))
     send('position fen ' + fen)
-    if stop_on_park:
+    if stop_on_info:
+        # reactive: the stop is sent the moment the k-th `info … pv` line appears, i.e. while the search thread is between
+        # finishing an iteration and deciding about the next one
+        send(go)
+        lim = time.time() + 8.0
+        while time.time() < lim and sum(1 for _, l in lines if l.startswith('info') and ' pv ' in l) < stop_on_info:
+            time.sleep(0.0005)
+        send('stop')
+        stop_t = time.time() - t0
+    elif stop_on_park:
         send(go)
         lim = time.time() + 4.0
         while time.time() < lim and not any(l.startswith('PARKED') for _, l in errs):
